@@ -478,6 +478,7 @@ static void mark_must(const cell *c)
 #define RC_B_S 45              /* recovery bound after the end of the fault window (DESIGN.md C02) */
 #define RC_L_S 10              /* delivery latency bound for packets offered after recovery */
 #define RC_SIZE 120
+#define RC_BIG 400              /* every third packet: several fragments in most cells */
 static struct { int side; int64_t at; } OFFER[NS_MAXPK]; static int noffer;
 static int64_t burst_from, burst_to; static int burst_dir;     /* 1 = client->server, 2 = server->client, 3 = both */
 static int burst_fate(int d, int to_server)
@@ -490,6 +491,12 @@ static const struct { int dir; int start_ms; int dur_ms; } BURSTS[] = {
 	{ 1, 2000, 3000 }, { 2, 2000, 3000 }, { 3, 2000, 3000 }, { 1, 5300, 8000 }, { 2, 5300, 8000 }, { 3, 5300, 8000 },
 	{ 1, 2100, 14000 }, { 2, 2100, 14000 }, { 3, 2100, 14000 }, { 2, 9700, 12000 }, { 1, 9700, 12000 },
 	{ 1, 3000, 35000 }, { 2, 3000, 35000 }, { 3, 3000, 35000 }, { 2, 2500, 7400 }, { 2, 2500, 25000 }, { 1, 2500, 25000 },
+	/* outages that begin in the middle of a multi-fragment upstream packet (the 400-byte packet offered on the client's
+	 * tun at t0+2.537 s): every few milliseconds across its transfer, answers lost / queries lost for 6 s */
+	{ 2, 2538, 6000 }, { 2, 2541, 6000 }, { 2, 2544, 6000 }, { 2, 2547, 6000 }, { 2, 2550, 6000 }, { 2, 2553, 6000 }, { 2, 2559, 6000 }, { 2, 2565, 6000 }, { 2, 2577, 6000 }, { 2, 2607, 6000 },
+	{ 1, 2538, 6000 }, { 1, 2541, 6000 }, { 1, 2544, 6000 }, { 1, 2547, 6000 }, { 1, 2553, 6000 }, { 1, 2565, 6000 },
+	/* and in the middle of a multi-fragment downstream packet (400 bytes offered on the server's tun at t0+3.1 s) */
+	{ 1, 3101, 6000 }, { 1, 3104, 6000 }, { 1, 3107, 6000 }, { 1, 3113, 6000 }, { 2, 3101, 6000 }, { 2, 3104, 6000 }, { 2, 3107, 6000 }, { 2, 3113, 6000 },
 };
 #define NBURSTS ((int)(sizeof BURSTS / sizeof BURSTS[0]))
 
@@ -527,7 +534,7 @@ static void recovery_eval(const char *desc, int bi, int64_t t0)
 
 static void run_recovery_cell(const cell *c, const char *desc)
 {
-	unsigned char p[400];
+	unsigned char p[800];
 	vw_run_until(W.now + 50000);
 	int64_t t0 = W.now;
 	noffer = 0;
@@ -535,7 +542,7 @@ static void run_recovery_cell(const cell *c, const char *desc)
 		for (int side = 0; side <= 1; side++) {
 			int tag = ++noffer;
 			int64_t at = t0 + 100000 + (int64_t)i * 1000000 + side * 437000;
-			int n = ns_mkpkt(p, RC_SIZE, side ? A_SRV : A_CLA, tag, 0);
+			int n = ns_mkpkt(p, (side ? i % 3 == 2 : i % 3 == 0) ? RC_BIG : RC_SIZE, side ? A_SRV : A_CLA, tag, 0);
 			OFFER[tag].side = side; OFFER[tag].at = at;
 			vw_tun_offer_at(side ? ns_cli_tun[1] : ns_srv_tun, at, p, n, tag);
 		}
@@ -590,14 +597,14 @@ static void run_cell(int job)
 	if (c->wl == 4) {
 		if (XC.replay) {
 			/* replay of one recorded outage: same preparation, no fork */
-			unsigned char p[400];
+			unsigned char p[800];
 			int bi = XC.npath ? XC.path[0].alt : 0;
 			vw_run_until(W.now + 50000);
 			int64_t t0 = W.now;
 			noffer = 0;
 			for (int i = 0; i < RC_TOTAL_S; i++) for (int side = 0; side <= 1; side++) {
 				int tag = ++noffer; int64_t at = t0 + 100000 + (int64_t)i * 1000000 + side * 437000;
-				int n = ns_mkpkt(p, RC_SIZE, side ? A_SRV : A_CLA, tag, 0);
+				int n = ns_mkpkt(p, (side ? i % 3 == 2 : i % 3 == 0) ? RC_BIG : RC_SIZE, side ? A_SRV : A_CLA, tag, 0);
 				OFFER[tag].side = side; OFFER[tag].at = at;
 				vw_tun_offer_at(side ? ns_cli_tun[1] : ns_srv_tun, at, p, n, tag);
 			}
